@@ -50,9 +50,11 @@ func (cp *channelProvider) run() {
 			panic(fmt.Errorf("newChannel unexpected error: %w", err))
 		}
 
+		verifPoint("prov.afterProvide", ch)
 		cp.node.newChannel(ch)
 
 		if cp.endpoint.oneChannelAtAtime() {
+			verifPoint("prov.beforeWaitDone", ch)
 			// wait the channel to emit EventChannelClose
 			// before creating another channel
 			select {
